@@ -158,6 +158,10 @@ def generate(seeds=(1, 2, 3), tier='quick'):
                  what=f'FourierLaplacian({md}) = u_rr + u_r/r + u_φφ/r² of u = sum_i R_i(r) F_i(φ)')
     legendre_part(g, stats, FB, seeds, tier)
     zonal_laplacian_part(g, stats, FB, ops, seeds, tier)
+    # ---- orthogonality and common normalisation of the 25 harmonics (own modules, see C17orth.py) -------------------
+    from .C17orth import generate_orth
+    g.parts, ostats = generate_orth(trees, NAMES, LM)
+    stats['orthogonality'] = dict(replays=0, **ostats)
     return g, stats
 
 
@@ -340,7 +344,8 @@ def retarget_unresolved(tree, ctx_from, ctx_to):
 
 ASSUMPTIONS = [
     'theorems are over the reals with the decimal constants of the source taken exactly; sin(theta) != 0 where the angular Laplacian divides by it',
-    'orthogonality / normalisation integrals of the 25 harmonics are NOT proved (partial: checked by exact-for-band-limit quadrature in the failing-input search); eigenvalue, azimuthal order and parity pin each column to its (l, m) up to scale',
+    'orthogonality: all 300 pairs proved exactly (= 0); normalisation: each squared norm is within 1e-7 of pi (the decimal constants of the source are 9-10 digit roundings, so the norms are pi only up to that rounding; the exact rational multiple of pi is computed in the proof)',
+    'the integrals are iterated interval integrals over [0, pi] x [0, 2 pi] with weight sin(theta) (Mathlib intervalIntegral); each traced harmonic is separated as A(theta) B(phi) by a kernel-checked identity and every 1-D integral comes from an antiderivative certificate checked through D_sound and the fundamental theorem of calculus',
     'Legendre / zonal parts hold up to the float rounding of scipy\'s coefficients, with explicit bounds (1e-10 on the polynomials, 1e-8 on the ODE residual, 1e-15 on the squared constants)',
 ]
 
